@@ -95,6 +95,22 @@ func (s *Session) WriteReplay(ce *Counterexample, dir string) error {
 	return os.WriteFile(filepath.Join(dir, "replay.sh"), []byte(sh), 0o755)
 }
 
+// RunReplayN repeats a replay up to n times (for behaviour that depends on Go's map randomisation).
+func RunReplayN(dir string, n int) (bool, string) {
+	if n < 1 {
+		n = 1
+	}
+	var out string
+	for i := 0; i < n; i++ {
+		ok, o := RunReplay(dir)
+		out = o
+		if ok {
+			return true, o
+		}
+	}
+	return false, out
+}
+
 // RunReplay executes a replay directory; it reports whether the violation reproduced.
 func RunReplay(dir string) (reproduced bool, output string) {
 	cmd := exec.Command("sh", filepath.Join(dir, "replay.sh"))
